@@ -250,7 +250,7 @@ func alphabet(thorough bool) []ops.Op {
 		{K: "Call", S: "refund", A: 5},
 		{K: "Call", S: "delegate", A: 3, B: 2},
 		{K: "Tx", A: 0, B: 1, T: 0, V: 5},
-		{K: "Tx", A: 2, B: 1, T: 1, V: 0}, // a zero-amount send: receiving it credits nothing, it must still be received once only
+		{K: "Tx", A: 2, B: 1, T: 2, V: 0}, // a zero-amount send: receiving it credits nothing, it must still be received once only
 		{K: "R", A: 1},
 		{K: "R", A: 1, B: 1}, // second oldest first (users may receive in any order)
 		{K: "Rdup", A: 1},
@@ -282,7 +282,7 @@ func bases() []hx.Base {
 		// pending user send, nothing received yet by the contract (the base is built without a producer step after the last M?
 		// no: M auto-receives; so the inbox entries are created by the last two calls, confirmed by the explored ops)
 		{Name: "pending-user-sends+unconfirmed-calls", Prefix: []ops.Op{
-			{K: "Tx", A: 0, B: 1, T: 0, V: 11}, {K: "Tx", A: 2, B: 1, T: 1, V: 0}, M,
+			{K: "Tx", A: 0, B: 1, T: 0, V: 11}, {K: "Tx", A: 2, B: 1, T: 2, V: 0}, M,
 			{K: "Call", S: "stake", A: 2, V: 20}, {K: "Call", S: "stake", A: 1, V: 10}, {K: "Call", S: "refund", A: 5},
 		}},
 		// one call confirmed and auto-received (contract receive pooled), a second call to the same contract still pooled: a
